@@ -62,10 +62,10 @@ def observe(sess, hist, op, exc, valid, reason, pre, acc):
                              f"after {[kdriver.op_str(o) for o in hist]}: {bad[1]}")
 
 
-_shard = kcommon.make_run(__name__, "observe")
+_shard = kcommon.make_run(__name__, "observe", extra_ops=kcommon.long_comment_ops)
 
 
-_chain = kcommon.make_chain_run(__name__, "observe")
+_chain = kcommon.make_chain_run(__name__, "observe", extra_ops=kcommon.long_comment_ops)
 
 
 def run(tier):
